@@ -251,7 +251,7 @@ class WriteV(_MSF):
         return {"file0": FileK(gen_container), "datav": SListK([("offset", "int", 0), ("data", "bytes")]),
                 "new_length": IntK(0, rnd=lambda r: r.randint(0, 120)), "has_new_length": ChoiceK([False, True])}
 
-    def cases(self):
+    def all_cases(self):
         return [{"has_new_length": False}, {"has_new_length": True}]
 
     @property
@@ -337,7 +337,7 @@ class WriteVShapes(WriteV):
         return {"file0": FileK(gen_container), "o1": IntK(0), "d1": BytesArrK(), "o2": IntK(0), "d2": BytesArrK(),
                 "new_length": IntK(0), "has_new_length": ChoiceK([False, True]), "nwrites": ChoiceK([0, 1, 2])}
 
-    def cases(self):
+    def all_cases(self):
         return [{"has_new_length": h, "nwrites": k} for h in (False, True) for k in (0, 1, 2)]
 
     def config(self):
@@ -397,7 +397,7 @@ class CheckTestV(_MSF):
                 "s1": BytesArrK(rndmax=8), "o2": IntK(0, rnd=lambda r: r.randint(0, 80)), "l2": IntK(0, rnd=lambda r: r.randint(0, 8)),
                 "s2": BytesArrK(rndmax=8), "n": ChoiceK([0, 1, 2])}
 
-    def cases(self):
+    def all_cases(self):
         return [{"n": k} for k in (0, 1, 2)]
 
     def requires(self, I, a):
@@ -460,7 +460,7 @@ class EmptyShareCheckTestV(Spec):
         return {"o1": IntK(0), "l1": IntK(0), "s1": BytesArrK(rndmax=2), "o2": IntK(0), "l2": IntK(0), "s2": BytesArrK(rndmax=2),
                 "n": ChoiceK([0, 1, 2])}
 
-    def cases(self):
+    def all_cases(self):
         return [{"n": k} for k in (0, 1, 2)]
 
     def tv(self, a):
